@@ -232,7 +232,16 @@ def rule_d1(ctx: Ctx) -> None:
         ctx.run(check_skeleton, ctx, "C05-D1", f, ["return cls(*a0)", "return cls(*tuple(a0))"], f"{cname}.from_iterable = {cname}(*patts)")
 
 
+GENERIC_FILES = ['permuta/perm_sets/basis.py', 'permuta/patterns/meshpatt.py', 'permuta/perm_sets/permset.py']
+
+
 def variants():
+    from ..selftest import generic_silent
+
+    return _variants() + generic_silent(GENERIC_FILES)
+
+
+def _variants():
     from ..selftest import V, insert_stmt, reformat_only, rename_local, replace_expr, replace_stmt
 
     BA, PS, MP = "permuta/perm_sets/basis.py", "permuta/perm_sets/permset.py", "permuta/patterns/meshpatt.py"
